@@ -246,7 +246,7 @@ func encodeString(s string) ([]byte, error) {
 			continue
 		}
 		c, size := utf8.DecodeRuneInString(s[i:])
-		if c == utf8.RuneError {
+		if c == utf8.RuneError && size == 1 { // invalid encoding, as opposed to U+FFFD itself
 			// don't accept anything that isn't valid UTF-8, no exceptions.
 			return nil, &json.UnsupportedValueError{Value: reflect.ValueOf(s), Str: fmt.Sprintf("%q", s)}
 		}
